@@ -21,6 +21,8 @@ claimed = {
  "C08": ("ranges, phase ranges, rates: exact integer postconditions for the six GetAggregate* methods (invalid rough value gives 0, invalid fine value falls back to the rough value, otherwise whole x 2^29 + frac x 2^19 + fine with the MSM4 deltas scaled x32 / x4 through the same specification function, which is the MSM4 = MSM7 clause); floating-point postconditions for RangeInMetres, PhaseRange, PhaseRangeRate, PhaseRangeRateDoppler and GetSignalWavelength in the relative-rounding-error model (result within k x 2^-53 of the standard's formula); argument-flow obligations that \"invalid\" reaches the display", "6 C08"),
  "C09": ("reader-to-sinks pipeline: per-stage contracts over ghost channel histories - the reader stage forwards exactly the bytes it read, in order, and closes its channel on return; the framing stage (C02/C03 clauses) turns its byte feed into the segment sequence and closes its output once; the fan-out stage sends every received message, as a value and in order, to every non-nil consumer and closes nothing - plus preconditions checked at each go statement, transfer of close permission at spawn (a second close or a send after hand-over is reported by the close-once / send-closed obligations), termination measures of the framing and fan-out stages on their feeds, and the whole-program spawn-disjoint obligation (the spawner does not touch what it handed over).  Schedules, buffer capacities and timings are not enumerated: each stage is proved for every feed, and the lift to every schedule is Kahn determinism of single-reader/single-writer channel networks (assumption K)", "6 C09/C10"),
  "C13": ("transient end-of-file and timeouts: the reader stage is proved against a prophecy reader (any sequence of results: a byte, end of file, i/o timeout, other error, or nothing; any placement): the byte channel carries exactly the bytes read so far, each once and in order, at every loop iteration and at return; the channel is closed at return; the stage returns only with the error of its last read and every earlier error was a tolerated one.  The wall-clock condition (give up only after the tolerance has elapsed) is the code's own guard and is not restated as a contract", "6 C13"),
+ "C10": ("rtcmfilter output: the writer stage is proved to make exactly one Write per typed message of its feed, in order, with that message's raw bytes, and none for non-RTCM messages (typedcnt counting function, per-call write offsets: the writer's log grows by the concatenation of the raw bytes of the typed messages); the readable-log stage makes one Write per message; composed with the C09 stage contracts (reader, framing with the C01/C02/C03 clauses, fan-out) through channel identity; the wiring function passes the fan-out stage's preconditions (distinct, open channels), closes every channel exactly once and waits for all writers (join obligation), for both switches symbolic", "6 C10"),
+ "C11": ("output complete at return: whole-program join obligations on displayrtcm3.HandleMessages and rtcmfilter.HandleMessages (every goroutine they start signals completion - deferred close / WaitGroup.Done after its last effect - and the function waits for that signal on every path to its return), plus the display stage contract (one Write per message received until the channel closes) and the C10/C09 stage contracts; writer latency is irrelevant because no contract mentions time", "6 C11"),
  "C12": ("corrupted frame discarded alone: per-fetch postcondition SegCorrupt (cursor lands exactly behind the damaged frame) lifted by the HandleMessages invariant; neighbours are covered by the C03 clauses", "6 C12"),
 }
 
@@ -31,7 +33,7 @@ NOTE = ("Assumes: the VC generator and SMT solvers; 64-bit int; assumed contract
 not_applicable = {
 }
 
-pending = ["C04","C10","C11","C19"]
+pending = ["C04","C19"]
 
 def main():
     checks = []
